@@ -27,12 +27,11 @@ THEOREMS = ["C16_spectrometer_history_independent", "C16_spectrometer_reachable_
             "C16_czerny_turner_pixels_increasing", "C16_calibrate_conserves", "C16_spectrum_integral_additive",
             "C16_round53_relative_error", "C16_bin_width_bound_double", "C16_bin_width_bound_polychromator_float",
             "C16_bin_width_bound_polychromator_double", "C16_filter_range", "C16_trapezoid_range_exact",
-            "C16_calibrate_call_outcomes"]
+            "C16_calibrate_call_outcomes", "C16_setters_have_tabled_effects"]
 
-EPS15 = 1.e-15
 D2R = float(np.pi / 180.0)
 SLACK = 2.0 ** -40          # bin-width bound on doubles: theorem C16_bin_width_bound_float gives ((1+u)/(1-u))^2, u = 2^-53
-HEADER = ("Require Import Cherab.Common.Qx Cherab.Model.C16_Instruments Cherab.Model.C16_Check.\n"
+HEADER = ("Require Import Cherab.Common.Qx Cherab.Model.C16_Instruments Cherab.Model.C16_Check Cherab.Model.C16_Source.\n"
           "From Coq Require Import String.\nOpen Scope Q_scope.\n")
 
 
@@ -141,6 +140,7 @@ NAME_OBJECTS = [123, None, 2.5, ("a", 1), True]
 
 import collections
 STATS = collections.Counter()      # what the generators actually produced (goes into the evidence)
+DEFAULTS = {}                      # constructor defaults read from the current source (c16_source.translate), tied to the model
 QUICK = [True]                     # tier switch for the size classes
 
 
@@ -406,11 +406,11 @@ def sp_history(rng, mod, enc, quick):
     # constructor with default / keyword / positional arguments
     r = rng.random()
     if r < 0.1:
-        mbpp, name = 1, ""
+        mbpp, name = DEFAULTS[("Spectrometer", "min_bins_per_pixel")], DEFAULTS[("Spectrometer", "name")]
         inst = mod.Spectrometer(w2p)
         STATS["ctor:defaults"] += 1
     elif r < 0.2:
-        name = ""
+        name = DEFAULTS[("Spectrometer", "name")]
         inst = mod.Spectrometer(w2p, min_bins_per_pixel=mbpp)
         STATS["ctor:defaults"] += 1
     elif r < 0.3:
@@ -710,7 +710,7 @@ def ct_history(rng, mod, enc, quick):
     c["name"] = rng.choice(NAMES)
     r = rng.random()
     if r < 0.15:
-        c["mbpp"], c["name"] = 1, ""
+        c["mbpp"], c["name"] = DEFAULTS[("CzernyTurnerSpectrometer", "min_bins_per_pixel")], DEFAULTS[("CzernyTurnerSpectrometer", "name")]
         inst = mod.CzernyTurnerSpectrometer(c["order"], c["grating"], c["focal"], c["spacing"], c["angle"], c["acc"])
         STATS["ctor:defaults"] += 1
     elif r < 0.3:
@@ -897,7 +897,8 @@ def gen_bad_trap(rng):
 
 def build_filter(mod, spec, name):
     if spec[0] == "trap":
-        if float(spec[2]) == 3.0 and spec[3] is None and type(spec[2]) is float:
+        if float(spec[2]) == float(DEFAULTS[("TrapezoidalFilter", "window")]) and spec[3] is DEFAULTS[("TrapezoidalFilter", "flat_top")] \
+                and type(spec[2]) is float:
             STATS["ctor:defaults"] += 1
             return mod.TrapezoidalFilter(spec[1], name=name)          # default window and flat_top
         return mod.TrapezoidalFilter(spec[1], spec[2], spec[3], name)
@@ -907,7 +908,7 @@ def build_filter(mod, spec, name):
 def filter_model_txt(spec, fid, name):
     if spec[0] == "trap":
         ft = "None" if spec[3] is None else "(Some %s)" % qlit(float(spec[3]))
-        return "mk_trapezoid round53 %s %s %s %s %s %s" % (qlit(EPS15), zl(fid), cstr(name), qlit(float(spec[1])), qlit(float(spec[2])), ft)
+        return "mk_trapezoid round53 eps15 %s %s %s %s %s" % (zl(fid), cstr(name), qlit(float(spec[1])), qlit(float(spec[2])), ft)
     return "mk_filter round53 %s %s %s" % (zl(fid), cstr(name), qlist([float(x) for x in spec[1]]))
 
 
@@ -972,7 +973,7 @@ def pc_history(rng, mod, quick):
     name = rng.choice(NAMES)
     r = rng.random()
     if r < 0.15:
-        mbpw, name = 10, ""
+        mbpw, name = DEFAULTS[("Polychromator", "min_bins_per_window")], DEFAULTS[("Polychromator", "name")]
         inst = mod.Polychromator(fv)
         STATS["ctor:defaults"] += 1
     elif r < 0.3:
@@ -1296,7 +1297,12 @@ def run(ctx):
         "Coq 8.16.1 kernel, vm_compute (no native_compute)",
         "harness/c16.py: history generators, encoding of call results as Coq terms, Q literal printer, comparators in Model/C16_Check.v",
         "round53 in Model/C16_Instruments.v as the meaning of one IEEE-754 double operation (+,-,*,/ in the normal range); "
-        "every range, bin count and pixel array is compared EXACTLY under it",
+        "every range, bin count and pixel array is compared EXACTLY under it (its relative-error bound 2^-53 is a theorem: "
+        "C16_round53_relative_error, so C16_bin_width_bound_double / _polychromator_double need no hypothesis on the rounding)",
+        "harness/c16_source.py: fail-closed ast translator (no code executed) from the current source to coq/Gen/C16/Source.v; the tables "
+        "it is compared with (Model/C16_Source.v) are maintained by hand next to the model and linked to the model's setters by "
+        "C16_setters_have_tabled_effects; whole-function bodies mirrored by hand (sp_derive, pc_derive, mk_filter, mk_trapezoid, calibrate, "
+        "ct_update_w2p, create_pipelines) are pinned as normalised source text, i.e. any edit of them breaks the tie until the model is reviewed",
         "CzernyTurnerSpectrometer.resolution (sqrt, cos, tan) is an oracle: a finite table filled from the resolution() method of a "
         "throw-away instrument with the same five parameters; np.deg2rad(x) = round53(x * (pi/180))",
         "raysect Spectrum.integrate is modelled by its specification (integral of the linear interpolant of the samples at the bin "
@@ -1312,10 +1318,25 @@ def run(ctx):
         "the bin-width bound is a theorem in exact arithmetic and, for doubles, up to the factor ((1+u)/(1-u))^2 with u = 2^-53",
     ]
     ctx.rebuild()
-    ctx.proofs("Properties.C16", THEOREMS, extra_modules=("Model.C16_Check", "Proofs.C16_Check"))
+    ctx.proofs("Properties.C16", THEOREMS, extra_modules=("Model.C16_Check", "Proofs.C16_Check", "Model.C16_Source"))
+
+    # ---- (T) the tables the model mirrors are regenerated from the current source; the kernel checks the tie -----
+    from common import REPO
+    import c16_source
+    src_tab = c16_source.translate(REPO)
+    DEFAULTS.clear()
+    DEFAULTS.update(src_tab["py_defaults"])
+    tie_ok, out = coqc(ctx.write_gen("Source.v", c16_source.coq_text(src_tab)), timeout=300)
+    vals = parse_evals(out)
+    src_diff = vals[0] if vals else "?"
+    ctx.obligation("Gen/C16/Source.v: source_tie (%d setter/method rows, %d constructors, %d getters, %d defaults, %d pinned bodies, "
+                   "member lists of %d classes, %d sites of 1.e-15)" % (
+                       len(src_tab["setters"]) + len(src_tab["methods"]), len(src_tab["ctors"]), len(src_tab["getters"]),
+                       len(src_tab["defaults"]), len(src_tab["consts"]), len(src_tab["members"]), len(src_tab["eps"])),
+                   "tie", tie_ok, "rows that differ: %s\n%s" % (src_diff, out[-1500:]))
+    ctx.log("source tie: %s" % ("ok" if tie_ok else "FAILS, rows that differ: " + src_diff))
 
     import cherab
-    from common import REPO
     assert list(cherab.__path__) == [REPO + "/cherab"], cherab.__path__
     import warnings
     warnings.simplefilter("error", RuntimeWarning)      # NaN / overflow in the implementation must not pass silently
@@ -1439,6 +1460,10 @@ def run(ctx):
                           "the executable property found no failing input" % (h["kind"], code),
                           dict(replay_of(h), first_disagreeing_call=code), found=False)
 
+    if not tie_ok and not search_fails:
+        ctx.violation("c16-source-tie", "the current source differs from the tables the model mirrors (%s); the executable property "
+                      "found no failing input" % src_diff, {"rows_that_differ": src_diff, "generated": "coq/Gen/C16/Source.v"}, found=False)
+
     # ---- evidence -------------------------------------------------------------------------------
     kinds = {}
     for h in hist:
@@ -1467,12 +1492,19 @@ def run(ctx):
                          "filter_error_cases": sum(1 for h in hist if h["kind"] == "filter" and not h["ok"]),
                          "search_cases": n_search, "corpus_files": len(corpus),
                          "input_classes": dict(sorted(STATS.items()))},
-        "tolerance": {"ranges, bin counts, pixel edge/centre arrays, filter min/max/window, kwargs, classes, exception kinds": "exact",
+        "tolerance": {"ranges, bin counts, pixel edge/centre arrays, filter min/max/window/central_wavelength, kwargs, classes, "
+                      "create_pipelines() result (class, name, filter identity of every pipeline), exception kinds of every call incl. the "
+                      "read-only Czerny-Turner pixel arrays and calibrate(<not a Spectrum>)": "exact",
+                      "source tables (setter guard kinds and effect lists, constructor statement order, lazy getters, defaults, member lists, "
+                      "pinned bodies, literal 1.e-15)": "equality checked by the kernel (Gen/C16/Source.v, Lemma source_tie)",
                       "calibrate values": "relative 2^-40 + absolute 2^-50 against the exact integral of the interpolant",
                       "search: bin width bound on doubles": "relative slack 2^-40 (theorem: ((1+u)/(1-u))^2, u=2^-53)",
                       "search: value*width vs integrals": "1e-10 * max sample * pixel width"},
         "partial": ["CzernyTurnerSpectrometer.resolution is an oracle (its formula is not part of C16); Spectrum.integrate is raysect's and is "
-                    "modelled by its specification; observational equality is proved for non-degenerate final parameters"],
+                    "modelled by its specification; observational equality is proved for non-degenerate final parameters",
+                    "order-independence and power-of-two scale covariance of the settings are checked on the implementation (search) only, "
+                    "not stated as theorems; constructors are tied to the source by statement order (table) but their link to "
+                    "sp_construct/ct_construct/pc_construct is by inspection, unlike the setters"],
     })
     samp = []
     for k in ("spectrometer", "czerny-turner", "polychromator", "calibrate", "filter"):
